@@ -48,6 +48,7 @@ partial def schemaOf (j : Json) : Except String S := do
   | "int" => pure (.int (match fieldD j "f" Json.null with | .str f => intFmtOf f | _ => none))
   | "num" => pure (.num (fieldD j "f32" (Json.bool false) == Json.bool true))
   | "bool" => pure .bool
+  | "single" => pure (.single (← chars (← field j "v")))
   | "enum" => pure (.enum ((← arr (← field j "vals")).map ofJson))
   | "arr" => pure (.arr (← schemaOf (← field j "s")))
   | "map" => pure (.map (← schemaOf (← field j "s")))
@@ -66,7 +67,9 @@ partial def propsOf : List Json → Except String Props
     let n ← chars (← field p "n")
     let s ← schemaOf (← field p "s")
     let req ← boolOf (← field p "req")
-    let d := match fieldD p "d" Json.null with | .str x => some x.toList | _ => none
+    let d := match s with
+      | .single v => some v          -- the single value IS the member's default
+      | _ => match fieldD p "d" Json.null with | .str x => some x.toList | _ => none
     pure (.cons n s req d (← propsOf r))
 end
 
